@@ -9,6 +9,7 @@ import Driver.OpsXml
 import Driver.OpsEnc
 import Driver.OpsSeq
 import Driver.OpsJson
+import Driver.OpsStream
 namespace Mxj.Drv
 
 def dispatch (op : String) (args : List String) : Out :=
@@ -38,6 +39,8 @@ def dispatch (op : String) (args : List String) : Out :=
   | "jenc" => runP opJenc args
   | "jquote" => runP opJquote args
   | "jdec" => runP opJdec args
+  | "getjson" => runP opGetJson args
+  | "bread" => runP opBread args
   | "implonly" => "na"
   | _ => "bad-op"
 
